@@ -54,6 +54,18 @@ func walGroups(node string) ([]walGroup, error) {
 	return gs, err
 }
 
+// groupSizes: how many log entries each acknowledged write consists of, by the
+// number it was acknowledged with. A stored group with more entries than that
+// holds another write under the same number.
+func checkGroupSizes(gs []walGroup, sizes map[uint64]int, what string) *kit.Violation {
+	for _, g := range gs {
+		if n, ok := sizes[g.seq]; ok && g.n > n {
+			return &kit.Violation{Kind: "log-sequence-order", Signature: "two-writes-share-a-sequence-number", Detail: fmt.Sprintf("%s: the log holds %d entries under sequence %d, the write acknowledged with that number consists of %d", what, g.n, g.seq, n)}
+		}
+	}
+	return nil
+}
+
 func checkGroups(gs []walGroup, what string) *kit.Violation {
 	for i := 1; i < len(gs); i++ {
 		if gs[i].seq <= gs[i-1].seq {
@@ -79,6 +91,9 @@ func runC08(t *testing.T, sc SeqCase) *kit.Result {
 		var prevReported uint64 // last sequence reported after the latest acknowledged write
 		ackedSteps, rotations, restarts, crashes := 0, 0, 0, 0
 		lossy := false // the latest stop may have cost acknowledged writes (crash without synchronous logging)
+		sizes := map[uint64]int{}
+		armed := 0
+		damaged := false // a refused disk operation broke the log writer: what was acknowledged but still buffered may be gone with it, as after a crash
 		node := fs.Node("n1")
 		fail := func(v *kit.Violation) {
 			if res.V == nil {
@@ -103,6 +118,10 @@ func runC08(t *testing.T, sc SeqCase) *kit.Result {
 					fail(v)
 					return
 				}
+				if v := checkGroupSizes(gs, sizes, "at open"); v != nil && armed > 0 {
+					fail(v)
+					return
+				}
 				var maxStored uint64
 				if len(gs) > 0 {
 					maxStored = gs[len(gs)-1].seq
@@ -124,6 +143,11 @@ func runC08(t *testing.T, sc SeqCase) *kit.Result {
 					}
 				} else {
 					prevReported = maxStored // the unsynced tail may be gone with the crash
+					for sq := range sizes {
+						if sq > maxStored {
+							delete(sizes, sq) // those numbers are issued again
+						}
+					}
 				}
 				floor := prevReported
 				if maxStored > floor {
@@ -136,7 +160,25 @@ func runC08(t *testing.T, sc SeqCase) *kit.Result {
 					switch op.K {
 					case "put", "del", "batch", "txn":
 						before, _ := lastSeq(e)
+						if op.FailIO > 0 {
+							// the disk refuses the next write (1) or sync (2) once
+							node.FailNext[[]int{simos.OpWrite, simos.OpSync}[(op.FailIO-1)%2]] = 1
+							armed++
+						}
+						fired0 := node.Stats.ErrFired
 						r := kit.ExecWrite(e, op)
+						node.FailNext = [simos.NOp]int{}
+						if node.Stats.ErrFired != fired0 {
+							res.Fault("io_error_in_write", 1)
+							damaged = true
+							if r.Err == nil {
+								// consumed by background maintenance, or swallowed: what that
+								// may cost is outside the listed properties - the run ends here
+								res.Probe("io_error_hit_background_run_abandoned")
+								ops = nil
+								continue
+							}
+						}
 						if r.Err != nil {
 							res.Probe("write_errors")
 							continue
@@ -155,6 +197,14 @@ func runC08(t *testing.T, sc SeqCase) *kit.Result {
 							return
 						}
 						floor, prevReported = after, after
+						distinct := map[string]bool{}
+						for _, w := range op.Writes() {
+							distinct[string(w.Key)] = true
+						}
+						sizes[after] = len(op.Writes())
+						if op.K == "txn" {
+							sizes[after] = len(distinct)
+						}
 					case "flush":
 						e.FlushImMemTables()
 						rotations++
@@ -198,20 +248,21 @@ func runC08(t *testing.T, sc SeqCase) *kit.Result {
 			case died:
 				fs.Restart("n1")
 				crashes++
-				lossy = c.Knobs.SyncMode != 2
+				lossy = c.Knobs.SyncMode != 2 // (damaged implies the same)
 				res.Fault("crash_inside_io", 1)
 			case stopOp == "crash":
 				fs.CrashNow("n1")
 				fs.Restart("n1")
 				crashes++
-				lossy = c.Knobs.SyncMode != 2
+				lossy = c.Knobs.SyncMode != 2 // (damaged implies the same)
 				res.Fault("crash_between_io", 1)
 			default:
-				lossy = false
+				lossy = damaged && c.Knobs.SyncMode != 2
 				simrt.KillTagged("n1", fs.Node("n1").Gen)
 				fs.Restart("n1")
 				restarts++
 			}
+			damaged = false
 		}
 		if res.V == nil {
 			kit.OnNode(fs, "n1", "final", func() {
@@ -221,6 +272,8 @@ func runC08(t *testing.T, sc SeqCase) *kit.Result {
 					return
 				}
 				if v := checkGroups(gs, "at end"); v != nil {
+					fail(v)
+				} else if v := checkGroupSizes(gs, sizes, "at end"); v != nil && armed > 0 {
 					fail(v)
 				}
 				res.Probes["log_groups"] += int64(len(gs))
@@ -254,6 +307,9 @@ func TestC08(t *testing.T) {
 			c := genKVCase(r, tier, kit.ProgOpts{MinOps: 4, MaxOps: max, Big: r.Bool(0.1),
 				WGet: 3, WTxn: 12, WBatch: 10, WFlush: 10, WCompact: 2, WReopen: 8, WSleep: 3})
 			for i := range c.Ops {
+				if k := c.Ops[i].K; (k == "put" || k == "batch" || k == "txn") && r.Bool(0.04) {
+					c.Ops[i].FailIO = r.Range(1, 2)
+				}
 				if c.Ops[i].K == "reopen" && r.Bool(0.5) {
 					c.Ops[i].K = "crash"
 					if r.Bool(0.5) {
@@ -282,6 +338,6 @@ func TestC08(t *testing.T) {
 				C *SeqConc
 			}{c.Knobs, c.Ops, c.Conc}
 		},
-		Rule: "70% seeded single-writer programmes with explicit flushes (log rotation), automatic rotations, clean restarts and process crashes (between two I/O operations, or inside one of the next 1-12: before it, after it, or with a torn write); after every acknowledged write the reported last sequence must exceed that of every earlier surviving write; after a stop that lost no acknowledged write (clean, or crash with synchronous logging) the reported value must not be lower than before; at every open and at the end the stored log entries (file order) must have strictly increasing sequence groups. 30% concurrent: 2-5 (thorough: 2-8) writer tasks (puts, deletes, batches, transactions on keys unique per operation), a maintenance task (flush/compact), 0-2 observer tasks, in half of the cases the node is a replication primary (real replication.Manager); each write's number is taken from the log's observer interface; calls are stamped with a global event counter and, for calls that did not overlap: a later write carries a higher number, a later reading of storage_last_sequence (statistics) or of last_sequence (replication manager node information) is not lower than an earlier one, and a statistics reading after an acknowledged write is not lower than that write's number. non-trivial = >=3 acknowledged steps and >=1 rotation/restart/crash (sequential) or >=3 acknowledged writes by >=2 writers (concurrent)",
+		Rule: "70% seeded single-writer programmes with explicit flushes (log rotation), automatic rotations, clean restarts and process crashes (between two I/O operations, or inside one of the next 1-12: before it, after it, or with a torn write); after every acknowledged write the reported last sequence must exceed that of every earlier surviving write; after a stop that lost no acknowledged write (clean, or crash with synchronous logging) the reported value must not be lower than before; at every open and at the end the stored log entries (file order) must have strictly increasing sequence groups; 4% of the writes run with one refused disk write or sync (they may fail), after which no stored group may hold more entries than the write acknowledged with its number consists of. 30% concurrent: 2-5 (thorough: 2-8) writer tasks (puts, deletes, batches, transactions on keys unique per operation), a maintenance task (flush/compact), 0-2 observer tasks, in half of the cases the node is a replication primary (real replication.Manager); each write's number is taken from the log's observer interface; calls are stamped with a global event counter and, for calls that did not overlap: a later write carries a higher number, a later reading of storage_last_sequence (statistics) or of last_sequence (replication manager node information) is not lower than an earlier one, and a statistics reading after an acknowledged write is not lower than that write's number. non-trivial = >=3 acknowledged steps and >=1 rotation/restart/crash (sequential) or >=3 acknowledged writes by >=2 writers (concurrent)",
 	})
 }
